@@ -58,7 +58,7 @@ KeysNE3  == KeysAll3 \ {<<>>}
 KeysTiny == {<<97>>, <<97, 255>>, <<255>>}
 KeysTwo  == {<<97>>, <<97, 255>>}
 ProbesTiny == {<<>>, <<97>>, <<97, 255>>, <<255>>, <<255, 255>>}
-KeysSucc4 == {<<97, 255>>, <<97, 255, 0>>, <<98>>, <<98, 0>>}
+KeysSucc4 == {<<97, 255>>, <<97, 255, 0>>, <<98>>}
 KeysSim  == {<<>>, <<0>>, <<97>>, <<97, 0>>, <<97, 255>>, <<255>>, <<255, 255>>}
 ProbesSim == KeysSim \cup {<<97, 97>>, <<255, 255, 255>>}
 BoundsSim == {<<>>, <<97>>, <<97, 255>>, <<255>>}
@@ -71,8 +71,8 @@ PrefixTiny2 == {<<97>>, <<255>>}
 RangeTiny2  == {<< <<97>>, <<255>> >>, << <<97, 255>>, None >>}
 ProbesTiny2 == {<<>>, <<97>>, <<97, 255>>, <<255>>}
 PrefixSucc == {<<97, 255>>, <<98>>}
-ProbesSucc == {<<97>>, <<97, 255, 0>>, <<98>>, <<255>>}
-RangeTiny  == {<< <<>>, None >>, << <<97>>, <<255>> >>, << <<97, 255>>, None >>, << <<97>>, <<97, 255>> >>}
+ProbesSucc == {<<97>>, <<98>>, <<255>>}
+RangeTiny  == {<< <<>>, None >>, << <<97>>, <<255>> >>, << <<97, 255>>, None >>}
 RangesOver(S) == {<<s, e>> : s \in S, e \in (S \ {<<>>}) \cup {None}}
 RangeAll1 == RangesOver(KeysAll1)
 RangeAll2 == RangesOver(KeysAll2)
